@@ -151,3 +151,29 @@ def tracker_types(prog):
     if not out:
         raise AnchorLost("no tracker types (no `prepare` call in any Command::apply)")
     return out
+
+
+def release_helper(prog):
+    """role: the unique crate function (world, entity) that receives the entity returned by a tracker's end()"""
+    trackers = tracker_types(prog)
+    cands = {}
+    for ty in trackers:
+        tname = ty.split("::")[-1]
+        try:
+            end = method(prog, tname, "end")
+        except AnchorLost:
+            continue
+        if end.local_ty(0) == "()":
+            continue
+        for (body, b, t, fr) in prog.callers_of(lambda n: n == end.path):
+            for b2, t2, fr2 in body.iter_calls():
+                if fr2 is None or b2 == b:
+                    continue
+                cb = prog.resolve_local(fr2)
+                if cb is None or cb.arg_count != 2 or not cb.local_ty(2).endswith("entity::Entity"):
+                    continue
+                if any(lib.originates_from_call(body, a, b) for a in t2["args"]):
+                    cands[cb.path] = cb
+    if len(cands) != 1:
+        raise AnchorLost("release helper: %d candidates" % len(cands))
+    return list(cands.values())[0]
